@@ -127,6 +127,15 @@ Section EvP.
       rewrite L. destruct e; cbn [app fails_since]; try (destruct (p0 =? p)); lia.
   Qed.
 
+  Lemma no_failure_candidacy_soon_after_success : forall (c : cfg) (h1 h2 : list ev) p,
+    N.of_nat (length h2) < max_fail c ->
+    fails_evict c (s_of (run (h1 ++ Success p :: h2)) p) = false.
+  Proof.
+    intros c h1 h2 p H. rewrite run_spec. unfold spec_pstate, fails_evict. cbn [p_fails].
+    destruct (tracked p (rev (h1 ++ Success p :: h2))); [|reflexivity].
+    apply N.leb_gt. pose proof (fails_since_after_success p h1 h2). lia.
+  Qed.
+
   (* ---------- the candidate list ---------- *)
   Definition SeenInv (s : st) : Prop := forall p, ~ In p (s_seen s) -> s_of s p = p0.
 
